@@ -489,6 +489,38 @@ def replay_detector(TR):
         return False, "detector round trips reproduce the angles on the sweep"
     return replay
 
+# ------------------------------------------------------------------------------------------------ the geometry functions are pure: no call history
+HPARS = dict(y_center=1011.5, y_size=47.25, tilt_y=0.0110, z_center=1033.25, z_size=-48.5, tilt_z=-0.0070, tilt_x=0.0040, distance=151234.0, o11=1.0, o12=0.0, o21=0.0, o22=-1.0)
+HGEO = dict(t_x=13.0, t_y=-7.0, t_z=4.5, wedge=1.5, chi=-0.75)
+def _hcall(m, fname, P):
+    det = {k: P[k] for k in HPARS}; geo = {k: P[k] for k in HGEO}
+    pk = np.array([[307.0], [1201.0]]); tth = np.array([7.25]); eta = np.array([33.0]); om = np.array([21.5])
+    if any(isinstance(v, Sym) for v in P.values()):        # symbolic run: object arrays (constants wrapped), so that results can hold terms
+        wrap = lambda a: np.array([Sym(z3.RealVal(Fraction(float(x)))) for x in a.ravel()], dtype=object).reshape(a.shape)
+        pk, tth, eta, om = wrap(pk), wrap(tth), wrap(eta), wrap(om)
+    if fname == "compute_xyz_lab": r = m.compute_xyz_lab(pk, **det)
+    elif fname == "compute_tth_eta": r = m.compute_tth_eta(pk, omega=om, **det, **geo)
+    elif fname == "compute_xyz_from_tth_eta": r = m.compute_xyz_from_tth_eta(tth, eta, om, **det, **geo)
+    elif fname == "compute_grain_origins": r = m.compute_grain_origins(om, wedge=geo["wedge"], chi=geo["chi"], t_x=geo["t_x"], t_y=geo["t_y"], t_z=geo["t_z"])
+    elif fname == "detector_rotation_matrix": r = m.detector_rotation_matrix(det["tilt_x"], det["tilt_y"], det["tilt_z"])
+    else: raise KeyError(fname)
+    return [x for a in (r if isinstance(r, (tuple, list)) else [r]) for x in np.asarray(a, dtype=object).ravel()]
+def mk_history(TR, fname, keys):
+    def run():
+        return dict(goals=harness.history_goals(TR, fname, _hcall, dict(HPARS, **HGEO), order=keys), inputs={})
+    return run
+def replay_history(TR):
+    def replay(v, label):
+        fname = label.split()[1].split("(")[0]; k = label.split("(")[1].split(" ")[0]
+        base = dict(HPARS, **HGEO); alt = {"o11": 0.0, "o12": 1.0, "o21": -1.0, "o22": 0.0}
+        for newv in ([alt[k]] if k in alt else []) + [base[k] * 1.5 + 0.25, -base[k] - 0.125]:
+            m1 = harness.fresh_module_copy(TR); m0 = harness.fresh_module_copy(TR)
+            _hcall(m1, fname, base); got = [float(x) for x in _hcall(m1, fname, dict(base, **{k: newv}))]; want = [float(x) for x in _hcall(m0, fname, dict(base, **{k: newv}))]
+            if not np.allclose(got, want, rtol=1e-12, atol=1e-9, equal_nan=True):
+                return True, "transform.%s depends on the call history: with %s=%r after a call with %s=%r it returns %s, a first call returns %s" % (fname, k, newv, k, base[k], np.round(got, 6).tolist(), np.round(want, 6).tolist())
+        return False, "second call equals a pristine first call on the real module"
+    return replay
+
 # ------------------------------------------------------------------------------------------------ main
 def main():
     args = parse_args("C02"); ck = Check("C02", args.tier); thorough = args.tier == "thorough"
@@ -503,6 +535,7 @@ def main():
              "detector (L5): every real tilt, pixel size, centre, distance, flip matrix entry o11..o22, grain translation, omega, wedge, chi; tth in [0, 180], rays that hit the detector plane in the forward direction (mu > 0)",
              "C kernel: n = 1, omegasign = +1 and -1, every real xl, yl, zl, omega, t, wedge, chi, lambda > 0",
              "outside: floating-point rounding (|quot| within an ulp of 1), g on the rotation axis when wedge/chi tilt the beam (den = 0 with the Laue equation satisfied for every omega), eta at exact back-scattering (k_y = k_z = 0)")
+    ck.bound("call histories: each geometry function twice on one module instance with ONE parameter changed (symbolic old and new value, the others generic concrete numbers) against the first call of a pristine module instance; longer histories and several parameters changing at once are outside")
     ck.assume("real-arithmetic model: angles enter through unit (cos, sin) pairs; atan2 / asin are uninterpreted with their defining (cos, sin) pairs; pi is the double constant",
               "arcsin outside [-1, 1] is an obligation (D), not a hypothesis", "division by zero in the C kernel is assumed away (|d| > 0: the peak is not at the grain origin)",
               "L5 is composed from AFF (pixel -> lab is affine), RAY (on fresh plane vectors and a fresh grain origin: compute_xyz_lab / compute_grain_origins are cut), BACK, GO0 and the wiring goals by congruence",
@@ -524,6 +557,10 @@ def main():
     rd = replay_detector(TR)
     for nm, mk in (("AFF compute_xyz_lab affine", mk_AFF), ("RAY compute_xyz_from_tth_eta", mk_RAY), ("BACK compute_tth_eta_from_xyz", mk_BACK), ("GO0", mk_GO0), ("compute_tth_eta wiring", mk_TTHETA)):
         jobs.append((nm, mk(TR, GG), dict(replay=rd, timeout_ms=tmo, keyfn=kf)))
+    hk = lambda n, l: "transform.py:%s:call-history" % l.split()[1].split("(")[0]
+    for fname, keys in (("compute_xyz_from_tth_eta", list(HPARS) + list(HGEO)), ("compute_tth_eta", list(HPARS) + list(HGEO)), ("compute_xyz_lab", list(HPARS)), ("compute_grain_origins", list(HGEO)), ("detector_rotation_matrix", ["tilt_x", "tilt_y", "tilt_z"])):
+        for k in keys:      # one parameter per job (the forks of successive parameters would multiply); hypotheses are only the trig-pair axioms: no vacuity query
+            jobs.append(("history %s [%s]" % (fname, k), mk_history(TR, fname, [k]), dict(replay=replay_history(TR), timeout_ms=tmo, keyfn=hk, budget_s=300, vacuity=False)))
     if thorough:
         jobs.append(("inverse general (monolithic)", mk_inverse(TR, GG, "direct"), dict(replay=replay_inverse(TR, GG), timeout_ms=120000, keyfn=kf, stretch=True)))
         jobs.append(("roundtrip wedge=chi=0 (monolithic)", mk_inverse(TR, GG, "00", True), dict(replay=replay_inverse(TR, GG), timeout_ms=120000, keyfn=kf, stretch=True)))
